@@ -834,6 +834,14 @@ def gen_net(r, n, tier):
     yield "net tcp m3 any c1.127.0.0.1,c2.127.0.0.1,L,q1,q2,S,p1,p2,c3.127.0.0.1,L,S"
     yield "net tcp m3 any c1.127.0.0.1,c2.127.0.0.1,q1,H,p1,p2,c3.127.0.0.1"
     yield "net tls m2 any c1.127.0.0.1,c2.127.0.0.1,c3.127.0.0.1,p1,p2,p3,S,p2,p3"
+    # a session that ended (peer close, garbage, at any position) must free its slot
+    for m in (1, 2, 3):
+        for victim in range(1, m + 1):
+            for how in ("g", "x"):
+                steps = [f"c{k}.127.0.0.1" for k in range(1, m + 1)] + [f"{how}{victim}"]
+                steps += [f"c{m + 1}.127.0.0.1"] + [f"p{k}" for k in range(1, m + 2)]
+                steps += [f"c{m + 2}.127.0.0.1"] + [f"p{k}" for k in range(1, m + 3)] + [f"q{m + 2}"]
+                yield f"net tcp m{m} any {','.join(steps)}"
     for _ in range(n):
         variant = r.pick(["tcp", "tcp", "tcp", "tls", "tlsa"])
         m = r.pick([0, 1, 2, 3, 4])
